@@ -155,7 +155,7 @@ PROPS['C08'] = dict(
            ('decode_props', 2000, 30000), ('reader', 2000, 30000)],
     sess=[('sess_c08', 300, 4000), ('py_edges', 200, 3000), ('py_c08', 400, 6000)],
     events='wrf', state=['ret', 'rel', 'ctl', 'srv', 'live', 'conn', 'rb', 'pl', 'quota'],
-    monitors=[M.mon_panic, M.mon_c08, M.mon_c08_valid, M.mon_c11], codec_monitors=[M.mon_decode],
+    monitors=[M.mon_panic, M.mon_c08, M.mon_c08_valid, M.mon_c11], codec_monitors=[M.mon_decode, M.mon_decode_valid],
     title='any inbound bytes: valid packets accepted verbatim, malformed rejected, no panic',
     claim='Proved in Coq: variable byte integers round-trip and the reader accepts exactly the canonical encodings (<= 4 bytes, '
           '<= 268435455); the packet reader\'s lax length probe agrees with the canonical reader; the first byte is accepted '
